@@ -133,6 +133,7 @@ package bgp
 //@   tag C05 C06
 //@   modifies nothing
 //@   ensures result >= ERROR_HANDLING_ATTRIBUTE_DISCARD && result <= ERROR_HANDLING_SESSION_RESET
+//@   ensures t == BGP_ATTR_TYPE_MP_REACH_NLRI || t == BGP_ATTR_TYPE_MP_UNREACH_NLRI ==> result > ERROR_HANDLING_TREAT_AS_WITHDRAW
 
 //@ func (*PathAttribute).Len
 //@   inline
@@ -423,12 +424,23 @@ package bgp
 // (if any) is accounted for, and the remembered class never decreases
 //@   loop 1 step e != nil ==> errClass(strongestError) >= errClass(e)
 //@   loop 1 step errClass(strongestError) >= header(errClass(strongestError))
+// from C06 "treat-as-withdraw ... its NLRI withdrawn": MP_REACH_NLRI / MP_UNREACH_NLRI carry the prefixes themselves;
+// when one of them fails to decode (for whatever reason, a flags conflict included) its prefixes are not available
+// and treat-as-withdraw would withdraw nothing - the reaction is the attribute's own, stronger one
+// (t is the type code the decoder stored in the attribute: the class is looked up for that code)
+//@   at-call getErrorHandlingFromPathAttribute( requires arg0 == p.GetType()
+//@   loop 1 step e != nil && (t == BGP_ATTR_TYPE_MP_REACH_NLRI || t == BGP_ATTR_TYPE_MP_UNREACH_NLRI) ==> errClass(e) > ERROR_HANDLING_TREAT_AS_WITHDRAW
 // ... and whatever the function returns, from whichever exit, is at least as strong as everything remembered so
 // far and as the error just raised for the current attribute
 //@   at-return requires errClass(ret0) >= errClass(strongestError)
 //@   at-return requires e != nil ==> errClass(ret0) >= errClass(e)
+// from C06 "treat-as-withdraw ... its NLRI withdrawn": an UPDATE that is to be treated as withdraw comes back with
+// its NLRI field decoded (RFC 7606 4: the field is located by the total attribute length, whatever the attributes
+// inside look like) - without the prefixes there is nothing to withdraw
+//@   at-return requires errClass(ret0) == ERROR_HANDLING_TREAT_AS_WITHDRAW ==> msg.NLRI != nil
 //@   loop 1 decreases int(pathlen)
 //@   loop 2 invariant restlen <= len(data)
+//@   loop 2 invariant msg.NLRI != nil
 //@   loop 2 invariant (strongestError == nil || isMsgErr(strongestError)) && errClass(strongestError) <= ERROR_HANDLING_SESSION_RESET
 //@   loop 2 decreases restlen
 
